@@ -341,6 +341,21 @@ class ContractMixin:
 
             pred.class_name = cname
             return "field:*", pred
+        if entry.startswith("all:dict["):
+            # typed wildcard: the contents of every dict of this static kind (identified by its dynamic container tag)
+            dk = parse_kind(entry[4:], self.reg.opaque)
+            tag = self.container_tag(dk.target)
+            for arr_ in (self.H.dom_arr, self.H.dkel_arr, self.H.dklen_arr):
+                arr_(st, dk.target.k.sort())
+            self.H.map_arr(st, dk.target.k.sort(), dk.target.v.sort())
+
+            def dpred(a, s_, _tag=tag):
+                return self.cls_arr(s_)[a] == _tag
+
+            dpred.class_name = None
+            dpred.dict_kind = entry[4:]
+            dpred.dict_sorts = (dk.target.k.sort(), dk.target.v.sort())
+            return "dict", dpred
         if entry.startswith("all:"):
             # wildcard: 'all:dict' (contents of every dict) or 'all:field:<name>' (that field of every object)
             reg_ = entry[4:]
